@@ -60,6 +60,7 @@ func runAll(jobs []*histJob, par int) {
 }
 
 type replyInfo struct {
+	Mixed     string // a body that does not belong to the response whose headers were sent ("" = none)
 	Headers   int
 	Complete  bool
 	AfterEnd  bool
@@ -87,6 +88,9 @@ func replyOf(r *Result) replyInfo {
 		case "down.data":
 			if ended || ri.Headers == 0 {
 				ri.AfterEnd = true
+			}
+			if ri.Headers >= 1 && x.Aux != ri.FirstKind && ri.Mixed == "" {
+				ri.Mixed = fmt.Sprintf("headers of a %s reply (status %d) followed by a body of kind %s", ri.FirstKind, ri.FirstCode, x.Aux)
 			}
 			if x.End {
 				ended = true
@@ -169,6 +173,9 @@ func c03Finder(run *Run, j *histJob) {
 	}
 	if newAfterTerminate(r) {
 		run.Fail("C03:attempt-after-terminate", "TerminateStream returned true, yet a new upstream attempt was started afterwards", replay)
+	}
+	if ri.Mixed != "" {
+		run.Fail("C03:reply-mixes-two-responses", "the client was sent "+ri.Mixed, replay)
 	}
 	if ri.Headers > 1 || ri.AfterEnd {
 		run.Fail("C03:two-replies", "the downstream sender was given a second reply (or calls after end of stream)", replay)
